@@ -124,7 +124,7 @@ def gen_clump(rng, tier):
         dup_ids = rng.random() < 0.35  # several variants share an ID ('.' placeholders, SNP/indel pairs with one rsID)
         for j in range(nv):
             while True:
-                c, pos = rng.choice(chroms), rng.choice([100, 600, 1100, 1500, 2000, 100000, 251000, 500000])
+                c, pos = rng.choice(chroms), rng.choice([100, 600, 1100, 1500, 2000, 32399, 100000, 251000, 500000])
                 if (c, pos) not in used:
                     used.add((c, pos))
                     break
@@ -155,7 +155,7 @@ def gen_clump(rng, tier):
                 if rng.random() < 0.3:
                     k = rng.randrange(ns)
                     gts[j][k] = [rng.randint(1, 7), rng.randint(1, 7)]
-        yield {"types": types, "variants": variants, "gts": gts, "order": rows, "p1": rng.choice(["0.0001", "0.01", "0.1", "0.6", "1"]), "p2": rng.choice(["0.01", "0.3", "1"]), "kb": rng.choice([0.001, 0.5, 1, 250, 250]), "r2": rng.choice([0.0, 0.1, 0.5, 0.9]), "ld": rng.choice(["Pearson", "Pearson", "Exact"]) if mode == "snp" else "Pearson", "cols": rng.choice([["SNP", "CHR", "POS", "P"], ["P", "POS", "SNP", "CHR"], ["CHR", "junk", "SNP", "P", "POS"]]), "names": rng.choice([None, {"SNP": "ID", "P": "p-value", "CHR": "CHROM", "POS": "position"}]), "pgen": rng.random() < 0.3 and mode != "str"}
+        yield {"types": types, "variants": variants, "gts": gts, "order": rows, "p1": rng.choice(["0.0001", "0.01", "0.1", "0.6", "1"]), "p2": rng.choice(["0.01", "0.3", "1"]), "kb": rng.choice([0.001, 0.5, 1, 250, 250, 0.5002, 1.9003, 0.4003, 32.3]), "r2": rng.choice([0.0, 0.1, 0.5, 0.9]), "ld": rng.choice(["Pearson", "Pearson", "Exact"]) if mode == "snp" else "Pearson", "cols": rng.choice([["SNP", "CHR", "POS", "P"], ["P", "POS", "SNP", "CHR"], ["CHR", "junk", "SNP", "P", "POS"]]), "names": rng.choice([None, {"SNP": "ID", "P": "p-value", "CHR": "CHROM", "POS": "position"}]), "pgen": rng.random() < 0.3 and mode != "str"}
 
 
 def loaded_order(case):
@@ -286,7 +286,7 @@ def model_req_clump(case):
     order = loaded_order(case)
     vs = [{"p": f(case["variants"][j]["p"]), "chrom": case["variants"][j]["chrom"], "pos": case["variants"][j]["pos"]} for j in order]
     ldm = [[ld[i][j] for j in order] for i in order]
-    return {"op": "clump", "one": ONE, "p1": f(case["p1"]), "p2": f(case["p2"]), "win": int(round(case["kb"] * 1000)), "vars": vs, "ld": ldm}
+    return {"op": "clump", "one": ONE, "p1": f(case["p1"]), "p2": f(case["p2"]), "win": math.ceil(Fraction(str(case["kb"])) * 1000), "vars": vs, "ld": ldm}  # win: |d| < kb*1000 for an integer distance d, also for windows that are not whole base pairs
 
 
 def model_obs_clump(case, resp):
@@ -328,7 +328,7 @@ def oracle_clump(case, obs):
         if not cand:
             break
         best = min(cand, key=lambda j: (P[j], pool.index(j)))
-        mem = [j for j in pool if V[j]["chrom"] == V[best]["chrom"] and abs(V[j]["pos"] - V[best]["pos"]) < case["kb"] * 1000 and ld[best][j]]
+        mem = [j for j in pool if V[j]["chrom"] == V[best]["chrom"] and abs(V[j]["pos"] - V[best]["pos"]) < Fraction(str(case["kb"])) * 1000 and ld[best][j]]
         exp.append([best, mem])
         pool = [j for j in pool if j not in mem and j != best]
     if obs["clumps"] != exp:
@@ -419,7 +419,7 @@ CHECK = Check(
             setup=setup,
             teardown=teardown,
             nontrivial=lambda c, o: C.jdump(c) if isinstance(o, dict) and len(o.get("clumps", [])) >= 1 and len(c["variants"]) > 2 else None,
-            rule="seeded random summary-statistics tables (1-8 variants on 1-2 chromosomes, p from {0,1e-8,...,1} with ties, shuffled rows, three column orders, default and renamed columns, optional leading #), SNP-only, STR-only and mixed input (SNP table + STR table, SNP genotypes as VCF or PGEN, STR genotypes as a HipSTR-style VCF read through GenotypesTR; STR alleles are whole repeat copy numbers 1-7, the dosage their sum), phased genotype matrices with correlated, constant and independent columns, thresholds p1, p2, kb (0.001..250), r2 (0..0.9), both LD modes; the .clump file is compared with the Lean greedy loop fed the exact-rational LD decisions (Pearson; cases within 1e-6 of the r2 threshold and the Exact mode are compared structurally only)",
+            rule="seeded random summary-statistics tables (1-8 variants on 1-2 chromosomes, p from {0,1e-8,...,1} with ties, shuffled rows, three column orders, default and renamed columns, optional leading #), SNP-only, STR-only and mixed input (SNP table + STR table, SNP genotypes as VCF or PGEN, STR genotypes as a HipSTR-style VCF read through GenotypesTR; STR alleles are whole repeat copy numbers 1-7, the dosage their sum), phased genotype matrices with correlated, constant and independent columns, thresholds p1, p2, kb (0.001..250, incl. windows that are not a whole number of base pairs and 32.3, whose product with 1000 is not exact in binary, with candidates on the last base pair inside), r2 (0..0.9), both LD modes; the .clump file is compared with the Lean greedy loop fed the exact-rational LD decisions (Pearson; cases within 1e-6 of the r2 threshold and the Exact mode are compared structurally only)",
         ),
         Section(
             name="compute_ld",
